@@ -387,6 +387,11 @@ def extra(ctx, out, quick_n=70, thorough_n=900):
     dist['c_holds_without_side_condition'] = len(not_ok) - len(ibad)
     out.evaluations += len(chk_cases)
     out.nontrivial += len(distinct)
+    # minimum-count guard: an empty or almost empty stream must not pass for a tie
+    n_eval__ = max([v for k, v in dist.items() if isinstance(v, int) and k in ('programs', 'pairs', 'cases', 'sets', 'joints', 'evaluated')] + [0])
+    if n_eval__ < 5:
+        out.corr_errors.append('gen_rename: only %d cases were evaluated (distribution %r)' % (n_eval__, {k: v for k, v in dist.items() if isinstance(v, int)}))
+
     out.extra['rename_model'] = dist
     out.trusted_base = list(out.trusted_base or []) + TRUSTED
     out.assumptions = list(out.assumptions or []) + ASSUMPTIONS
